@@ -1,8 +1,33 @@
-(* C11 - structured control flow goes exactly where the source says. Property theorems only (proofs/ControlProofs.v about the code generator, proofs/VMStepProofs.v about Return, proofs/CompilerTotal.v for the jump-patching invariant). Proved so far: where stop / volgende / antwoord jump and that loop contexts never cross a function boundary, for EVERY compiler state; the simulation of whole if/zolang constructs against Sem.v (one branch, no residue after n iterations) is the next fragment of compile_correct (C01) and is until then decided per program against Sem.v on a complete template enumeration. *)
+(* C11 - structured control flow goes exactly where the source says. Property theorems only. Machine-level simulation of if-chains and loops against the definitional semantics for fragment F2 (proofs/CompileCorrectC.v, CompileCorrectD.v): exactly one branch, the branch's value, no residue after ANY number of iterations, stop/volgende semantics; code-generator facts for every compiler state (proofs/ControlProofs.v); Return at machine level (VMStepProofs.v). Functions and heap values inside loops are outside F2 and are decided per program against Sem.v. *)
 From NL.Model Require Import Compiler VM.
-From NL.Proofs Require ControlProofs VMStepProofs CompilerTotal.
+From NL.Spec Require Import Sem Fragment2.
+From NL.Proofs Require ControlProofs VMStepProofs CompilerTotal CompileCorrectC CompileCorrectD.
 Import ControlProofs.
 Open Scope Z_scope.
+
+(* an if / else-if / else chain runs exactly one branch and has that branch's value, null when no branch runs *)
+Theorem if_runs_exactly_one_branch : forall (orc : oracle) (c : expr) (t : list stmt) (alt : option (list stmt)) (lp : bool) (st st' : cstate) (k : nat) (outer : list (list text)) (cur : list text), f2e lp (EIf c t alt) = true -> c_symbols st = CompileCorrectC.stab k outer cur -> compile_expression (EIf c t alt) st = Ok st' -> exists ce nb : list Z, CompileCorrectC.cfacts st st' outer cur ce nb /\ (forall (prog : program) (lexit : Z), CompileCorrectC.env_ok prog st st' ce nb lexit -> 0 <= lexit < 65536 -> 0 <= CompileCorrectC.cur_start (c_loops st) -> forall (f : nat) (s : vm) (b : bool) (m1 : CompileCorrectA.mst), v_ip s = code_len st -> CompileCorrectC.xeval orc f (CompileCorrectC.flat outer cur) c (CompileCorrectA.mst_of s) = CompileCorrectC.XOk (VBool b) m1 -> CompileCorrectC.sim2 orc prog s (code_len st') (CompileCorrectC.cur_start (c_loops st)) lexit (if b then CompileCorrectC.xstmts orc f (CompileCorrectC.flat outer cur) t VNull m1 else match alt with | Some bl => CompileCorrectC.xstmts orc f (CompileCorrectC.flat outer cur) bl VNull m1 | None => CompileCorrectC.XOk VNull m1 end)).
+Proof. exact CompileCorrectD.if_runs_exactly_one_branch. Qed.
+
+(* a branch that has no value yields null *)
+Theorem block_without_value_is_null : forall (orc : oracle) (fuel : nat) (l : list stmt) (names : list text) (last : val) (m : CompileCorrectA.mst) (v : val) (m' : CompileCorrectA.mst), l <> [] -> ends_pop l = false -> CompileCorrectC.xstmts orc fuel names l last m = CompileCorrectC.XOk v m' -> v = VNull.
+Proof. exact CompileCorrectD.block_without_value_is_null. Qed.
+
+(* running a loop ANY number of times leaves no residue: at the loop's exit the operand stack is the loop's value on top of exactly the stack before the loop *)
+Theorem while_no_residue : forall (orc : oracle) (c : expr) (body : list stmt) (lp : bool) (st st' : cstate) (k : nat) (outer : list (list text)) (cur : list text), f2e lp (EWhile c body) = true -> c_symbols st = CompileCorrectC.stab k outer cur -> compile_expression (EWhile c body) st = Ok st' -> exists ce nb : list Z, CompileCorrectC.cfacts st st' outer cur ce nb /\ (forall (prog : program) (lexit : Z), CompileCorrectC.env_ok prog st st' ce nb lexit -> 0 <= lexit < 65536 -> 0 <= CompileCorrectC.cur_start (c_loops st) -> forall (fuel : nat) (s : vm) (v : val) (m' : CompileCorrectA.mst), v_ip s = code_len st -> CompileCorrectC.xeval orc fuel (CompileCorrectC.flat outer cur) (EWhile c body) (CompileCorrectA.mst_of s) = CompileCorrectC.XOk v m' -> exists fin' : val, CompileCorrectA.reaches orc prog s (CompileCorrectC.setx s (v :: v_stack s) (v_slen s + 1) (code_len st') m' fin')).
+Proof. exact CompileCorrectD.while_no_residue. Qed.
+
+(* stop ends the innermost loop with null, volgende starts its next iteration *)
+Theorem break_continue_semantics : forall (orc : oracle) (f : nat) (names : list text) (c : expr) (body : list stmt) (last : val) (m m1 : CompileCorrectA.mst), CompileCorrectC.xeval orc f names c m = CompileCorrectC.XOk (VBool true) m1 -> (forall m2 : CompileCorrectA.mst, CompileCorrectC.xstmts orc f names body VNull m1 = CompileCorrectC.XBrk m2 -> CompileCorrectC.xwhile orc (S f) names c body last m = CompileCorrectC.XOk VNull m2) /\ (forall m2 : CompileCorrectA.mst, CompileCorrectC.xstmts orc f names body VNull m1 = CompileCorrectC.XCnt m2 -> CompileCorrectC.xwhile orc (S f) names c body last m = CompileCorrectC.xwhile orc f names c body VNull m2) /\ (forall (v : val) (m2 : CompileCorrectA.mst), CompileCorrectC.xstmts orc f names body VNull m1 = CompileCorrectC.XOk v m2 -> CompileCorrectC.xwhile orc (S f) names c body last m = CompileCorrectC.xwhile orc f names c body v m2).
+Proof. exact CompileCorrectD.break_continue_semantics. Qed.
+
+(* a loop never passes a stop / volgende on to an enclosing loop *)
+Theorem loop_contains_stop : forall (orc : oracle) (fuel : nat) (c : expr) (body : list stmt) (names : list text) (last : val) (m : CompileCorrectA.mst), f2e false c = true -> CompileCorrectC.nosig (CompileCorrectC.xwhile orc fuel names c body last m).
+Proof. exact CompileCorrectD.loop_contains_stop. Qed.
+
+(* all of it end to end for programs of fragment F2 *)
+Theorem compile_correct_F2 : forall (orc : oracle) (p : block), in_F2 p = true -> ends_expr p = true -> forall bc : bytecode, compile p = Ok bc -> forall fuel : nat, (size2_b p <= fuel)%nat -> sem_program orc fuel p <> SemFuel -> exists budget : nat, obs_eq (run_program orc bc budget) (sem_program orc fuel p).
+Proof. exact CompileCorrectD.compile_correct_F2. Qed.
 
 (* stop acts on the innermost enclosing loop only: the jump it emits is recorded in the LAST loop context, outer contexts are untouched *)
 Theorem break_innermost : forall st st' : cstate, compile_statement SBreak st = Ok st' -> exists (outer : list loopctx) (ctx : loopctx), c_loops st = outer ++ [ctx] /\ c_loops st' = outer ++ [{| l_start := l_start ctx; l_breaks := l_breaks ctx ++ [code_len st + 1] |}] /\ c_code st' = c_code st ++ ControlProofs.break_code /\ c_symbols st' = c_symbols st /\ c_constants st' = c_constants st.
@@ -53,6 +78,12 @@ Theorem compile_expression_ok : forall (e : expr) (st st' : cstate), CompilerTot
 Proof. exact CompilerTotal.compile_expression_ok. Qed.
 
 
+Print Assumptions if_runs_exactly_one_branch.
+Print Assumptions block_without_value_is_null.
+Print Assumptions while_no_residue.
+Print Assumptions break_continue_semantics.
+Print Assumptions loop_contains_stop.
+Print Assumptions compile_correct_F2.
 Print Assumptions break_innermost.
 Print Assumptions continue_innermost.
 Print Assumptions break_outside_loop.
